@@ -36,6 +36,9 @@ func main() {
 		for _, w := range info.Warnings {
 			fmt.Println("warning:", w)
 		}
+	case "warm":
+		// build everything once so that the go build cache is hot
+		os.Exit(doWarm())
 	case "check":
 		if len(os.Args) < 3 {
 			usage()
